@@ -42,8 +42,12 @@ Theorem C04_read_tzfile_roundtrip : forall bytes r d, parse_tzif bytes = Ok r ->
 Proof. exact read_roundtrip_lemma. Qed.
 Print Assumptions C04_read_tzfile_roundtrip.
 
-(* the generic layer _tzinfo.fromutc / _fold_status (tzical, tzlocal) under the five obligations
-   a zone class using it has to meet (see tzfile/TzGenericThm.v) *)
+(* the generic layer _tzinfo.fromutc / _fold_status under the five obligations a zone class using it has to
+   meet (see tzfile/TzGenericThm.v).  Scope, honestly: this is the algorithm with the GENERIC is_ambiguous
+   (_tzinfo.is_ambiguous, used by the iCalendar zones).  tzlocal OVERRIDES is_ambiguous, which _fold_status calls:
+   tzlocal is NOT covered by this theorem (differential only).  For tzical the identification of
+   _find_comp / dst() with the piecewise lookups is differential (C05 generated stream).  tzrange / tzstr have
+   their own fromutc (tzrangebase): C08 proves their POSIX semantics, no C04 / C05 theorem is derived here. *)
 Theorem C04_generic_roundtrip : forall (UO DST : Z -> bool -> Z) (z : zone) (so : Z),
   wf_zone z = true ->
   (forall x f, UO x f - DST x f = so) ->
@@ -68,6 +72,15 @@ Theorem C04_generic_on_piecewise_zone : forall (so p : Z) (tr : list (Z * Z)),
   A_utcoffset p tr w f = off (mkZone p tr) u /\ w - A_utcoffset p tr w f = u.
 Proof. exact generic_on_piecewise_lemma. Qed.
 Print Assumptions C04_generic_on_piecewise_zone.
+
+(* ... while a zone whose STANDARD offset changes breaks the first obligation and the generic layer with it:
+   finding F-C04/C05-tzical-std-change (+3 h -> +4 h, an instant half an hour after the change) *)
+From V Require Import tzfile.TzRefuted.
+Theorem C04_generic_std_change_refuted : exists (p : Z) (tr : list (Z * Z)) (u : Z),
+  wf_zone (mkZone p tr) = true /\
+  fst (g_fromutc (A_utcoffset p tr) (fun _ _ => 0) u) <> local (mkZone p tr) u.
+Proof. exact generic_std_change_refuted_lemma. Qed.
+Print Assumptions C04_generic_std_change_refuted.
 
 Theorem C04_fixed_roundtrip : forall o u,
   let (w, f) := fixed_fromutc o u in
